@@ -130,6 +130,11 @@ pub trait Property: Sync {
     ) -> Result<Judged, String> {
         Ok(Judged::default())
     }
+    /// is a (shrunk) case still inside the domain the property quantifies
+    /// over? Candidates outside are discarded by the shrinker.
+    fn in_domain(&self, _case: &Value) -> bool {
+        true
+    }
     /// named predicates over shrunk cases for known-finding attribution
     fn predicate(&self, _name: &str, _case: &Value, _v: &Violation) -> bool {
         false
@@ -469,7 +474,17 @@ pub fn run_check(prop: &dyn Property, tier: Tier) -> i32 {
         let (shrunk, rounds) = crate::shrink::shrink(&c0, tier.pick(10, 30), tier.pick(300, 600), |cands| {
             let mut st = Stats::default();
             match evaluate(prop, cands, &mut py, &mut st) {
-                Ok(evs) => evs.iter().map(|e| e.violations.iter().any(|v| v.symptom == symptom)).collect(),
+                Ok(evs) => evs
+                    .iter()
+                    .map(|e| {
+                        prop.in_domain(&e.case)
+                            && e.violations.iter().any(|v| {
+                                v.symptom == symptom
+                                    // never slide from an unlisted failure into the region of a listed finding
+                                    && !findings.iter().any(|f| f.status.starts_with("open") && symptom_matches(&f.symptom, &v.symptom) && prop.predicate(&f.predicate, &e.case, v))
+                            })
+                    })
+                    .collect(),
                 Err(Infra(e)) => {
                     infra = Some(e);
                     cands.iter().map(|_| false).collect()
